@@ -2,7 +2,7 @@
 EXTENDS L4ProxyProto, Json
 CONSTANT Tier
 RecvCases == { c \in [kind : {"recv"}, ver : {1, 2}, fam : {"TCP4", "TCP6", "UNKNOWN", "LOCAL"}, addr : {1, 2, 3},
-                      peer : {"any", "in1", "out1", "inSpecific", "inBroad", "out2"}, split : {"whole", "hdr", "mid", "byte"},
+                      peer : {"any", "in1", "out1", "inSpecific", "inBroad", "out2", "in6", "out6"}, split : {"whole", "hdr", "mid", "byte"},
                       pre : {"none", "part", "hdr", "hdr1", "all"}, payload : {0, 1, 5000, 20000}] :
                  /\ (c.fam = "UNKNOWN" => c.ver = 1) /\ (c.fam = "LOCAL" => c.ver = 2)
                  /\ (c.fam \in {"UNKNOWN", "LOCAL"} => c.addr = 1) }
